@@ -56,7 +56,9 @@ RULE = ("A: explicit-state BFS to closure over (FILTERS,_CACHE) of a fixed graph
         "registration orders x registration places for overlapping pairs, triples in all 6 orders with mixed budgets, one "
         "string registered twice with different budgets, a superstring filter, set-typed arguments under every iteration order "
         "(forced hashes); stream() before and after load; two writes and two collections per host case; glob_file / "
-        "foreach_collect / foreach_execute content per file; shell/grep/format glue characters; filtering switched off; the truncated read of extra-huge files (MAX_CONTENT_SIZE "
+        "foreach_collect / foreach_execute content per file; shell/grep/format glue characters; white space (filters with leading / trailing blank or tab, lines with "
+        "trailing blanks / tabs, blank-only lines, a CRLF line; kept lines compared with the original lines exactly); "
+        "filtering switched off; the truncated read of extra-huge files (MAX_CONTENT_SIZE "
         "configured to every value from 0 to size+1 bytes for contents of <= 3 lines over {a,b,\u00e9a,c\u00e9,-a,c,''}); non-trivial when the real output kept at "
         "least one line and dropped at least one line")
 ASSUMPTIONS = [
@@ -1602,6 +1604,11 @@ def _judge_path(fx, path, lines, flts, cleaner):
                       _features(path, flts, "raised", None))
     for stage, src, out, note in stages:
         v = judge(src, out, flt, path not in UNBUDGETED)
+        if v and any(l.endswith("\r") for l in src):
+            # a line "x\r" in a file is a CRLF-terminated line "x": whether the carriage return belongs to the line is
+            # not said anywhere, so the content may equally be judged against the lines without it (one reading for
+            # the whole content)
+            v = judge([l[:-1] if l.endswith("\r") else l for l in src], out, flt, path not in UNBUDGETED)
         if v:
             obs = v[2] if isinstance(v[2], dict) else {"output": v[2]}
             if note:
@@ -1837,30 +1844,54 @@ def glue_sets():
     return sets
 
 
-def explore_glue(res):
+# white space: filters with a leading / trailing blank or tab, lines with trailing blanks / tabs, a line of blanks only
+# (non-empty in the statement's sense: if kept it must contain a filter), a CRLF line.  Kept lines are compared with the
+# original lines exactly (the sub-sequence clause compares strings), so a path that strips or pads a line is caught.
+BLANK_FILTERS = ["a ", " a", "a\t", "\ta", " ", "= "]
+BLANK_LINES = ["a ", " a", "a", "a\t", "\ta", "x a ", "k = ", "k = v", "  ", "\t", "a\r", "c ", "c"]
+
+
+def blank_sets():
+    sets = [[[f, None, VIAS[k % 3]]] for k, f in enumerate(BLANK_FILTERS)]
+    sets.append([["a ", 1, "point"]])
+    sets.append([["a ", 1, "impl"], [" a", 2, "point"]])
+    sets.append([[f, None, VIAS[k % 3]] for k, f in enumerate(BLANK_FILTERS)])
+    return sets
+
+
+def explore_glue(res, kind="glue"):
     fx = _fx()
     cleaner = _new_cleaner()
-    if cleaner.clean_content(list(GLUE_LINES)) != GLUE_LINES:
-        raise RuntimeError("the cleaner alters the glue line alphabet without an allow-list")
-    contents = [[l] for l in GLUE_LINES] + [list(GLUE_LINES), []]
+    if kind == "glue":
+        alphabet, sets = GLUE_LINES, glue_sets()
+        contents = [[l] for l in alphabet] + [list(alphabet), []]
+        plan = [(IN_PROCESS + ("host-file", "host-cmd"), contents)]
+    else:
+        alphabet, sets = BLANK_LINES, blank_sets()
+        short = [[l] for l in alphabet] + [list(alphabet), list(reversed(alphabet))]
+        plan = [(IN_PROCESS + ("archive-stream", "archive-load-twice"), [list(t) for t in enumx.strings(alphabet, 2)] + short[-2:]),
+                (("host-file", "host-cmd"), short)]
+    if cleaner.clean_content(list(alphabet)) != alphabet:
+        raise RuntimeError("the cleaner alters the %s line alphabet without an allow-list" % kind)
     _mkroot(fx)
     try:
-        for flts in glue_sets():
-            for path in IN_PROCESS + ("host-file", "host-cmd"):
-                _register(fx, PATH_TRIPLE[path], flts)
-                snap = _snapshot_tables(fx)
-                for lines in contents:
-                    _restore_tables(fx, snap)
-                    out, v = _judge_path(fx, path, lines, flts, cleaner)
-                    res.evals += 1
-                    if path.startswith("host"):
-                        res.stat("real_grep_cases")
-                    if out is not None:
-                        if 0 < len(out) < len(lines):
-                            res.nontrivial += 1
-                        res.outcomes.add("glue:%s:%d" % (path, min(len(out), 3)))
-                    if v:
-                        _report(res, v[0], {"part": "content", "path": path, "lines": lines, "filters": flts}, v[1], v[2], v[3])
+        for flts in sets:
+            for paths, contents in plan:
+                for path in paths:
+                    _register(fx, PATH_TRIPLE[path], flts)
+                    snap = _snapshot_tables(fx)
+                    for lines in contents:
+                        _restore_tables(fx, snap)
+                        out, v = _judge_path(fx, path, lines, flts, cleaner)
+                        res.evals += 1
+                        if path.startswith("host"):
+                            res.stat("real_grep_cases")
+                        if out is not None:
+                            if 0 < len(out) < len(lines):
+                                res.nontrivial += 1
+                            res.outcomes.add("%s:%s:%d" % (kind, path, min(len(out), 3)))
+                        if v:
+                            _report(res, v[0], {"part": "content", "path": path, "lines": lines, "filters": flts}, v[1], v[2], v[3])
     finally:
         _reset_tables(fx)
         _rmroot(fx)
@@ -1992,7 +2023,7 @@ def judge_selfcheck(res):
 # driver protocol
 # ---------------------------------------------------------------------------------------------
 def units(tier, seed):
-    us = [{"part": "judge-selfcheck"}, {"part": "nofilter"}, {"part": "collect-history"}, {"part": "glue"},
+    us = [{"part": "judge-selfcheck"}, {"part": "nofilter"}, {"part": "collect-history"}, {"part": "glue"}, {"part": "blank"},
           {"part": "disabled"}]
     if tier == "quick":
         us.append({"part": "history", "name": "ab_1_default", "patterns": ["a", "b"], "budgets": [1, None]})
@@ -2124,6 +2155,8 @@ def run_unit(unit, tier):
                     res.violation(c, case, e, o, ft)
     elif part == "glue":
         explore_glue(res)
+    elif part == "blank":
+        explore_glue(res, "blank")
     elif part == "huge":
         explore_huge(unit, tier, res)
     elif part == "disabled":
